@@ -14,6 +14,8 @@
 
 #include "../tracked.h"
 #include "../iter_script.h"
+#define VERIF_PAINT_NEW 1
+#include "../painted.h"
 
 using verif::reg;
 
@@ -201,6 +203,7 @@ int main() {
     std::ios::sync_with_stdio(false);
     std::string line;
     while (std::getline(std::cin, line)) {
+        verif::paintLine(line);   // painted `new` (harness/painted.h)
         std::istringstream is(line);
         std::vector<std::string> t;
         std::string w;
